@@ -70,10 +70,29 @@ func (checker) Transition(c modedit.Case) string {
 		}
 		return ""
 	}
+	// Free text taken from comments (rationale, deprecation notice) is left out of this comparison: the two
+	// sessions can hold syntax trees that print differently in their blank lines (a line moved to the front of
+	// a block keeps the blank line above it; a reparse drops a blank line at the start of a block), and where
+	// a comment ends up attached then differs although each session agrees with its own file. That agreement,
+	// text included, is what the property states and what State checks in every state.
+	dx, dy = stripCommentText(dx), stripCommentText(dy)
 	if !modedit.Equal(dx, dy) {
 		return fmt.Sprintf("%s applied in the same session after %s gives different directives than applied to a fresh parse of the same file: %s\n--- same session:\n%s--- fresh parse:\n%s", c.Next, modedit.HistString(c.Hist), modedit.Diff(dx, dy), tx, ty)
 	}
 	return ""
+}
+
+func stripCommentText(d []string) []string {
+	out := make([]string, len(d))
+	for i, s := range d {
+		for _, cut := range []string{" rationale=", " deprecated="} {
+			if j := strings.Index(s, cut); j >= 0 {
+				s = s[:j]
+			}
+		}
+		out[i] = s
+	}
+	return out
 }
 
 // KeyExtra: the C15 oracles depend on the implementation state only.
